@@ -161,3 +161,20 @@ Definition v1_member_witness : ctype :=
 Definition greedy_tail_witness : ctype :=
   CComp 3 16 (CCons [97] 0 (CComp 3 8 (CCons [115] 0 (CLeaf dt_str8) CNil))
              (CCons [98] 8 (CLeaf dt_int32) CNil)).
+
+(* ---- tie: ParseDatatypeMessage + recursive ParseCompoundType on a byte string (every nesting level costs
+   at least 8 bytes, so S (length data) levels are never exhausted) and the canonical value the harness
+   prints for a tree ---- *)
+Definition dec_compound_tree (data : bytes) : outcome ctype :=
+  t <- dec_datatype data;; dec_tree (S (length data)) t.
+
+Fixpoint val_ctype (t : ctype) : val :=
+  match t with
+  | CLeaf d => VL [VN 0; val_datatype d]
+  | CComp v s fs => VL [VN 1; VN v; VN s; VL (val_cfields fs)]
+  end
+with val_cfields (fs : cfields) : list val :=
+  match fs with
+  | CNil => []
+  | CCons n o t r => VL [VB n; VN o; val_ctype t] :: val_cfields r
+  end.
